@@ -374,7 +374,9 @@ pub fn localmesh_event(id: u64) -> Value {
     let n = ring.len();
     let centre = a5::cell_to_lonlat(id).ok();
     let ring2 = ring_ll(id, 2, false).unwrap_or_default();
-    let tol = 1e-6 * cell_size(res);
+    // coincidence tolerance: 1e-6 of the cell plus the absolute noise of f64 degrees (a res-29 cell is 1.7e-9 rad wide,
+    // one ulp of a longitude is 5e-16 rad and the two rings are computed independently)
+    let tol = 1e-6 * cell_size(res) + 5e-14;
     let mut twinned = vec![];
     let mut nbrs = vec![];
     if let Some(c) = centre {
